@@ -8,6 +8,7 @@ import (
 	"regexp"
 	"sort"
 	"strconv"
+	"strings"
 	"sync"
 	"time"
 
@@ -269,9 +270,27 @@ func runStoreHistory(r *rand.Rand, o storeHistOpts, t *Trace) *Case {
 			}
 			ops = append(ops, func(c *Case) { c.N(2).U(uint64(id)).N(code) })
 		case x < 50: // flush
+			// holders = queued memtables + registered segments, sampled at every hook point of the flush
+			holders := func() int {
+				ids, _ := st.VerifSegmentIDs()
+				return st.VerifMemtableCount() + len(ids)
+			}
+			h0 := holders()
+			gap := 0
+			comet.VerifSetHandler(func(name string, args ...uint64) {
+				if strings.HasPrefix(name, "flush.") {
+					if d := holders() - h0; d < gap {
+						gap = d
+					}
+				}
+				ser.handler(name, args...)
+			})
 			e := st.Flush()
+			comet.VerifSetHandler(ser.handler)
 			code := errCodeStore(e)
 			ops = append(ops, func(c *Case) { c.N(3).N(code) })
+			g := gap
+			ops = append(ops, func(c *Case) { c.N(12).I(int64(g)) })
 			t.Stat("store.flush")
 			observe()
 		case x < 58: // forced rotation
